@@ -774,7 +774,8 @@ impl RADAU {
                 singular_count = 0;
 
                 // Constrain new step size
-                hnew = hnew.abs().clamp(hmin, hmax) * posneg;
+                // (max first: a lower bound larger than the interval itself must not bind, and must not panic)
+                hnew = hnew.abs().max(hmin).min(hmax) * posneg;
 
                 // Prevent oscillations due to previous step rejections
                 if reject {
